@@ -351,6 +351,7 @@ int main(int argc, char **argv)
 			printf("STAT %s %llu\n", vh_counter_name[c], vh_counter_total(c));
 	}
 	printf("STAT threads_effective_%u 1\n", eff_threads);
+	printf("STAT message_buffers_not_handed_back_at_exit %lld\n", vh_unreleased_messages() > 0 ? vh_unreleased_messages() : 0);
 	if(vh_cfg.baton)
 		printf("STAT baton_runs 1\nSTAT baton_switches %llu\n", vh_baton_switches());
 	if(VM.sparse_lp >= 0 && (unsigned)VM.sparse_lp >= lp_lo && (unsigned)VM.sparse_lp < lp_hi)
